@@ -221,7 +221,7 @@ struct Gen {
     bool mine() { return (int)(k++ % opt.nslices) == opt.slice; }
     // emit one case (already known to be in this slice)
     void put(const std::string &route, const std::string &m, const std::string &fmt, bool null, const std::vector<std::string> &args) {
-        std::string line = "fmt route=" + route + " m=" + m + " fmt=" + (null ? std::string("N") : hex_bytes(fmt)) + " args=" + join_args(args);
+        std::string line = "fmt p=" + std::string(opt.prop == "C11" ? "C11" : "C10") + " route=" + route + " m=" + m + " fmt=" + (null ? std::string("N") : hex_bytes(fmt)) + " args=" + join_args(args);
         std::vector<AnyArg> pa; for (auto &t : args) pa.push_back(parse_arg(t));
         std::string ft = float_table(fmt, pa);
         if (!ft.empty()) line += " fr=" + ft;
@@ -443,10 +443,174 @@ static void gen_c10(Gen &g) {
             }
 }
 
+// ------------------------------------------------------------------ C11: field rendering
+// One field assembled from its components in one of several item orders.
+struct FieldParts { std::string ref, align, pad, hash, plus, width, prec, cls; };
+static std::string build_field(const FieldParts &f, unsigned order) {
+    // the zero flag must not run into the width ("0" then "12" is the flag and width 12 either way, but a pad
+    // item "_0" or the class letters may sit anywhere)
+    switch (order % 4) {
+    case 0: return "{" + f.ref + f.align + f.pad + f.hash + f.plus + f.width + f.prec + f.cls + "}";
+    case 1: return "{" + f.cls + f.plus + f.hash + f.pad + f.align + f.width + f.prec + f.ref + "}";
+    case 2: return "{" + f.pad + f.width + f.cls + f.prec + f.align + f.ref + f.plus + f.hash + "}";
+    default: return "{" + f.hash + f.pad + f.plus + f.align + f.width + f.cls + f.ref + f.prec + "}";
+    }
+}
+// `&N` directly followed by a digit item would read as one numeral; orders 1 and 3 end a ref before '}' or '.'
+static bool order_ok(const FieldParts &f, unsigned order) {
+    auto digit_first = [](const std::string &x) { return !x.empty() && x[0] >= '0' && x[0] <= '9'; };
+    std::vector<std::string> seq;
+    switch (order % 4) {
+    case 0: seq = {f.ref, f.align, f.pad, f.hash, f.plus, f.width, f.prec, f.cls}; break;
+    case 1: seq = {f.cls, f.plus, f.hash, f.pad, f.align, f.width, f.prec, f.ref}; break;
+    case 2: seq = {f.pad, f.width, f.cls, f.prec, f.align, f.ref, f.plus, f.hash}; break;
+    default: seq = {f.hash, f.pad, f.plus, f.align, f.width, f.cls, f.ref, f.prec}; break;
+    }
+    std::vector<std::string> ne; for (auto &x : seq) if (!x.empty()) ne.push_back(x);
+    for (size_t i = 0; i + 1 < ne.size(); ++i) {
+        const std::string &a = ne[i], &b = ne[i + 1];
+        bool a_num = (a[0] == '&' || a[0] == '.' || (a[0] >= '1' && a[0] <= '9'));
+        if (a_num && digit_first(b)) return false;          // numeral followed by '0' flag or width
+    }
+    return true;
+}
+
+// natural length of the rendering, obtained from the library itself: used only to place widths around it
+static size_t natural_len(const FieldParts &f, const std::string &arg) {
+    FieldParts g = f; g.width = ""; g.pad = ""; g.align = ""; g.ref = "";
+    std::string fs = build_field(g, 0);
+    AnyArg a = parse_arg(arg);
+    try { return ST::format(ST::assume_valid, fs.c_str(), a).size(); } catch (...) { return 1; }
+}
+
+static void gen_c11(Gen &g) {
+    bool thorough = g.opt.tier == "thorough";
+    const int NS = g.opt.nslices, SL = g.opt.slice;
+    uint64_t k = 0;                       // case counter: slices by case index
+    auto mine = [&]() { return (int)(k++ % NS) == SL; };
+    uint64_t keep_mod = thorough ? 1 : 6; // quick keeps a seed-dependent sixth of the integer cross product
+    // ---- the documented assertion, a handful of cases (each costs a worker restart), first
+    for (const char *fs : {"{c5}", "{_*c}", "{0c}", "{c<3}"})
+        for (const char *arg : {"i32:65", "c:66"})
+            if (mine()) g.put("f", "c", fs, false, {arg});
+    // ---- integers and characters: alignment x pad x width x '#' x '+' x class x &N x item order
+    const std::vector<std::string> aligns = {"", "<", ">"};
+    const std::vector<std::string> pads = {"", "_*", "0", "0_*", "_*0", "_0"};
+    const std::vector<std::string> classes = {"", "d", "x", "X", "o", "b", "c"};
+    uint64_t combo = 0;
+    for (const std::string &kind : INT_KINDS) {
+        for (const std::string &val : int_values(kind)) {
+            std::string arg = arg_tok(kind, val);
+            for (const std::string &cls : classes)
+                for (int hash = 0; hash < 2; ++hash)
+                    for (int plus = 0; plus < 2; ++plus) {
+                        FieldParts base; base.cls = cls; base.hash = hash ? "#" : ""; base.plus = plus ? "+" : "";
+                        bool is_char_cls = cls == "c" && kind != "b";
+                        size_t nat = natural_len(base, arg);
+                        std::vector<long> widths = {0, (long)nat - 1, (long)nat, (long)nat + 1, (long)nat + 2, 40, 70};
+                        for (const std::string &al : aligns)
+                            for (const std::string &pd : pads)
+                                for (long w : widths)
+                                    for (int ref = 0; ref < 2; ++ref) {
+                                        ++combo;
+                                        if (w < 0) continue;
+                                        if (is_char_cls && (w != 0 || !pd.empty())) continue;   // contract: no padding with 'c'
+                                        if ((combo * 2654435761ULL + g.opt.seed) % keep_mod != 0) continue;
+                                        FieldParts f = base; f.align = al; f.pad = pd; f.width = w ? std::to_string(w) : ""; f.ref = ref ? "&2" : "";
+                                        if (combo % 5 == 0) f.prec = ".3";      // precision is ignored for integers
+                                        unsigned order = (unsigned)(combo % 4);
+                                        if (!order_ok(f, order)) order = 0;
+                                        if (!order_ok(f, order)) continue;
+                                        if (!mine()) continue;
+                                        std::string route, m; g.route_of(combo, route, m);
+                                        std::vector<std::string> args = ref ? std::vector<std::string>{"cs:7a7a", arg} : std::vector<std::string>{arg};
+                                        g.put(route, m, build_field(f, order), false, args);
+                                    }
+                    }
+        }
+    }
+    // ---- text and booleans: alignment x pad x width x precision x (ignored) class / '#' / '+'
+    std::vector<std::string> text_args;
+    for (const std::string &t : TEXTS) for (const std::string &kd : STR_KINDS) { if (kd == "cs" && t.find('\0') != std::string::npos) continue; text_args.push_back(arg_tok(kd, hex_bytes(t))); }
+    text_args.push_back("b:1"); text_args.push_back("b:0"); text_args.push_back("cn");
+    for (const std::string &arg : text_args) {
+        AnyArg pa = parse_arg(arg);
+        long tl = pa.kind == "b" ? (pa.uv ? 4 : 5) : (long)pa.bytes.size();
+        std::vector<long> widths = {0, tl - 1, tl, tl + 1, 40};
+        std::vector<std::string> precs = {"", ".0", ".1", "." + std::to_string(tl), "." + std::to_string(tl > 0 ? tl - 1 : 0), ".100", ".", ".-1", ". 2", ".+2", ".4294967298"};
+        for (const std::string &al : aligns)
+            for (const std::string &pd : pads)
+                for (long w : widths)
+                    for (const std::string &pr : precs)
+                        for (const char *cls : {"", "c", "x", "+#"}) {
+                            ++combo;
+                            if (w < 0) continue;
+                            if (!thorough && (combo * 2654435761ULL + g.opt.seed) % 3 != 0) continue;
+                            FieldParts f; f.align = al; f.pad = pd; f.width = w ? std::to_string(w) : ""; f.prec = pr;
+                            if (std::string(cls) == "+#") { f.plus = "+"; f.hash = "#"; } else f.cls = cls;
+                            unsigned order = (unsigned)(combo % 4);
+                            // a precision without digits re-reads the next byte as an item: keep it in front of '}' or a flag
+                            if (!order_ok(f, order)) order = 0;
+                            if (!order_ok(f, order)) continue;
+                            if (!mine()) continue;
+                            std::string route, m; g.route_of(combo, route, m);
+                            g.put(route, m, build_field(f, order), false, {arg});
+                        }
+    }
+    // ---- floating point: rendered by libc, padded by the library
+    for (const char *arg0 : {"d", "fl"})
+        for (double v : {1.5, -2.25, 0.0, 123456.789, 1e10, 1e-5})
+            for (const std::string &al : aligns)
+                for (const std::string &pd : pads)
+                    for (long w : {0L, 5L, 12L, 30L})
+                        for (const char *pr : {"", ".0", ".3", ".10"})
+                            for (const char *cls : {"", "f", "e", "E"})
+                                for (int plus = 0; plus < 2; ++plus) {
+                                    ++combo;
+                                    if ((combo * 2654435761ULL + g.opt.seed) % (thorough ? 2 : 12) != 0) continue;
+                                    FieldParts f; f.align = al; f.pad = pd; f.width = w ? std::to_string(w) : ""; f.prec = pr; f.cls = cls; f.plus = plus ? "+" : "";
+                                    unsigned order = (unsigned)(combo % 4);
+                                    if (!order_ok(f, order)) order = 0;
+                                    if (!order_ok(f, order)) continue;
+                                    if (!mine()) continue;
+                                    std::string route, m; g.route_of(combo, route, m);
+                                    std::string a = std::string(arg0) == "d" ? "d:" + dbits(v) : "fl:" + fbits((float)v);
+                                    g.put(route, m, build_field(f, order), false, {a});
+                                }
+    // ---- 1..3 fields in all orders with 1..3 arguments, sequential and referenced mixed, literals and escapes between
+    long nmulti = thorough ? 400000 : 40000;
+    for (long r = SL; r < nmulti; r += NS) {
+        Rng rng(g.opt.seed * 0x9E3779B97F4A7C15ULL + (uint64_t)r * 2654435761ULL + 99);
+        int nargs = 1 + (int)rng.below(3);
+        std::vector<std::string> args; for (int i = 0; i < nargs; ++i) args.push_back(random_arg(rng, false));
+        int nf = 1 + (int)rng.below(3);
+        std::string s = random_literal(rng);
+        for (int i = 0; i < nf; ++i) {
+            FieldParts f;
+            if (rng.chance(1, 2)) f.ref = "&" + std::to_string(rng.below((uint64_t)nargs + 2));
+            f.align = rng.pick(aligns); f.pad = rng.pick(pads);
+            if (rng.chance(1, 3)) f.hash = "#";
+            if (rng.chance(1, 3)) f.plus = "+";
+            if (rng.chance(2, 3)) f.width = std::to_string(1 + rng.below(24));
+            if (rng.chance(1, 3)) f.prec = "." + std::to_string(rng.below(8));
+            f.cls = rng.pick(classes);
+            if (f.cls == "c") { f.width = ""; f.pad = ""; }
+            unsigned order = (unsigned)rng.below(4);
+            if (!order_ok(f, order)) order = 0;
+            if (!order_ok(f, order)) { f.ref = ""; }
+            s += build_field(f, order_ok(f, order) ? order : 0);
+            s += random_literal(rng);
+        }
+        std::string route, m; g.route_of(rng.next(), route, m);
+        g.put(route, m, s, false, args);
+    }
+}
+
 static void gen(Emitter &em, const Options &opt) {
     Gen g(em, opt);
     bool c10 = opt.prop.empty() || opt.prop == "C10";
     if (c10) gen_c10(g);
+    if (opt.prop == "C11") gen_c11(g);
 }
 
 int main(int argc, char **argv) {
